@@ -708,5 +708,6 @@ func main() {
 	}
 	if *prop == "C09" {
 		runC09Interop(r)
+		runC09InteropServer(r)
 	}
 }
